@@ -248,7 +248,7 @@ def merge_missing(field_sets, fields, fields_diff, model, pre_fields, _it, _seq,
     }
 
 
-@contract(MG + "._optimize_union", props=["C08", "C01", "C02", "C07"])
+@contract(MG + "._optimize_union", props=["C08", "C01", "C02", "C07", "C09", "C13"])
 class OptimizeUnion:
     """C01: a null or Optional member makes the result Optional (or null itself) - the null is never lost;
     C02/C07: without such a member the result is neither Optional nor null; C08: the result is never a union of fewer than two
